@@ -250,7 +250,8 @@ class ScriptedPathCoupling:
     sample i's path, the fine path is the next entry of the list (so that fine and coarse differ and may cross a
     barrier independently)"""
 
-    def __init__(self, base, times, log, df_value=1.0):
+    def __init__(self, base, times, log, df_value=1.0, names=None):
+        self.names = names
         self.base = float(base)
         self._times = np.asarray(times, dtype=float)
         self.model = StubModel(df_value, log=log)
@@ -276,9 +277,12 @@ class ScriptedPathCoupling:
             pm = copy.deepcopy(path_managers[-1])
             pm.update(self.fine_process.process_representation)
 
+            names = self.names
+
             def coupling_deterministic_path(times_input):
                 t = np.asarray(times_input, dtype=float)
-                return np.array([base + 0.0 * t, base + 0.0 * t])
+                out = np.array([base + 0.0 * t, base + 0.0 * t])
+                return out[:, np.newaxis, :] if names else out
 
             pm.deterministic_path = coupling_deterministic_path
             path_managers.append(pm)
